@@ -246,6 +246,22 @@ def main(argv):
                 rc, out = p.returncode, p.stdout + p.stderr
             except subprocess.TimeoutExpired:
                 rc, out = 2, 'replay timed out'
+            if rc == 0 and o.kind == 'symx':
+                # the witness does not reproduce in a fresh process: state kept by the code under test may have leaked from an earlier
+                # path of the exploration. Explore this case again with every path in its own process and replay what that finds.
+                from lib import symx as _sx
+                r2 = _sx.explore(lambda ctx: o.run(ctx, case), max_seconds=o.budget_s, isolate=True).as_dict()
+                if r2['status'] == 'cex':
+                    json.dump({'property': pid, 'obligation': o.name, 'tier': tier, 'case': _jsonable(case), 'cex': _jsonable(r2.get('cex')),
+                               'failed': r2.get('failed'), 'detail': 'found with per-path process isolation'}, open(rp, 'w'), indent=1)
+                    try:
+                        p = subprocess.run([REPLAY_PY, os.path.join(VERIF, 'lib', 'runner.py'), '--replay', rp], capture_output=True, text=True, timeout=600, env=env)
+                        rc, out = p.returncode, p.stdout + p.stderr
+                    except subprocess.TimeoutExpired:
+                        rc, out = 2, 'replay timed out'
+                    r = dict(r, failed=r2.get('failed'), cex=r2.get('cex'))
+                elif r2['status'] == 'ok':
+                    out += '\n(with every path in its own process the obligation holds: the first witness came from state leaking between paths of one process)'
             if rc == 1:
                 kf = _match_known(pid, o.name, case, r.get('cex'), r.get('failed'), out)
                 if kf:
